@@ -185,6 +185,10 @@ def _expr_simp(e):
                     o = i1.arg & i2.arg
                 elif op == '|':
                     o = i1.arg | i2.arg
+                elif op in ['>>', '<<'] and i2.arg >= i1.get_size():
+                    # every bit is shifted out (do not build the huge
+                    # intermediate integer)
+                    o = 0
                 elif op == '>>':
                     o = i1.arg >> i2.arg
                 elif op == '<<':
